@@ -135,16 +135,18 @@ def mergeLa : List (Option Coord) → List (Option Coord) → List (Option Coord
   | a, [] => a
   | x :: a, y :: b => maxC x y :: mergeLa a b
 
-/-- `PeerSetCache.Get` -/
+def tblExact (tbl : List (Int × List Nat)) (r : Int) : Option (List Nat) := (tbl.find? (·.1 == r)).map (·.2)
+def tblLatest (tbl : List (Int × List Nat)) (r : Int) : Option (List Nat) :=
+  ((tbl.filter (fun p => decide (p.1 ≤ r))).getLast?).map (·.2)
+
+/-- `PeerSetCache.Get`: exact hit, else below the first entry → first entry, else the latest entry ≤ r -/
 def peersAtTbl (tbl : List (Int × List Nat)) (r : Int) : List Nat :=
-  match tbl.find? (·.1 == r) with
-  | some p => p.2
+  match tblExact tbl r with
+  | some p => p
   | none =>
-    match tbl with
-    | [] => []
-    | first :: _ =>
-      if r < first.1 then first.2 else
-      ((tbl.filter (·.1 ≤ r)).getLast?.map (·.2)).getD first.2
+    match tbl.head? with
+    | none => []
+    | some first => if r < first.1 then first.2 else (tblLatest tbl r).getD first.2
 
 def St.peersAt (s : St) (r : Int) : List Nat := peersAtTbl s.peerSets r
 
@@ -308,9 +310,10 @@ def St.insert (s : St) (e : Ev) : St :=
 
 /-! ## DivideRounds -/
 
-def insertSorted (l : List (Int × Bool)) (x : Int × Bool) : List (Int × Bool) :=
-  let (a, b) := l.span (fun p => p.1 ≤ x.1)
-  a ++ [x] ++ b
+/-- insertion into the sorted pending queue (after the entries with a round ≤ the new one) -/
+def insertSorted : List (Int × Bool) → Int × Bool → List (Int × Bool)
+  | [], x => [x]
+  | p :: t, x => if p.1 ≤ x.1 then p :: insertSorted t x else x :: p :: t
 
 /-- `PendingRounds.Set` under the three conditions of `DivideRounds` -/
 def St.aboveLB (st : St) (r : Int) : Bool :=
@@ -514,9 +517,10 @@ def setLastCons (lc : List (Nat × String)) (e : Ev) : List (Nat × String) := a
 def applyItx (v : List Nat) (it : Bool × Nat) : List Nat :=
   if it.1 then (if v.contains it.2 then v else v ++ [it.2]) else v.filter (· != it.2)
 
-def insertPeerSet (tbl : List (Int × List Nat)) (r : Int) (v : List Nat) : List (Int × List Nat) :=
-  let (a, b) := tbl.span (fun p => p.1 ≤ r)
-  a ++ [(r, v)] ++ b
+/-- `PeerSetCache.Set`: the rounds slice is kept sorted -/
+def insertPeerSet : List (Int × List Nat) → Int → List Nat → List (Int × List Nat)
+  | [], r, v => [(r, v)]
+  | p :: t, r, v => if p.1 ≤ r then p :: insertPeerSet t r v else (r, v) :: p :: t
 
 def addRep (rep : List Nat) (c : Nat) : List Nat := if rep.contains c then rep else rep ++ [c]
 
